@@ -297,7 +297,17 @@ func TestC01(t *testing.T) {
 				client.SetVerifHook(nil)
 				fail("harness.hook", "monitor:reply pause point not reached")
 			}
+			// (if the case is abandoned in between - rapid unwinds a case it cannot replay while
+			// shrinking - the parked goroutine must not be left holding the client's locks)
+			released := false
+			defer func() {
+				if !released {
+					close(release)
+					client.SetVerifHook(nil)
+				}
+			}()
 			committed := commit(writer, -1)
+			released = true
 			close(release)
 			client.SetVerifHook(nil)
 			select {
